@@ -477,6 +477,11 @@ def r_objective_is_a_function_of_the_schedule(ctx):
     indicators.r_minmax(ctx)
 
 
+JUSTIFIED_BOUNDS = {
+    "IndicatorResourceUtilization": ("(0,100)", "a percentage of the horizon: between 0 and 100 by definition"),
+}
+
+
 def r_bound_provenance(ctx):
     """the incremental optimiser takes `value == bound` as a proof of optimality, the built-in optimiser ignores the bound: the
     two agree only if the bound holds in every valid schedule.  The bound is `Indicator.bounds`, copied by Objective.__init__
@@ -503,6 +508,18 @@ def r_bound_provenance(ctx):
                     c = proj.classes.get(cnode.name) if cnode else None
                     own = tgt[0] == "self" and fn.name == "__init__" and c is not None and \
                         ((tgt[1] == "bounds" and c.is_subclass_of("Indicator")) or (tgt[1] == "_bounds" and c.name == "Objective"))
+                    if own and tgt[1] == "bounds":
+                        # a bound an indicator gives itself must follow from its definition: the table of the ones that do
+                        parent = getattr(node, "_parent", None)
+                        value = ast.unparse(parent.value).replace(" ", "") if isinstance(parent, ast.Assign) else None
+                        justified = JUSTIFIED_BOUNDS.get(c.name)
+                        if justified is None or value != justified[0]:
+                            ctx.violation("R-BOUND-PROVENANCE", where, f"{c.name} declares the bounds {value} for itself",
+                                          f"{c.name}.__init__ sets `self.bounds = {value}`: the incremental optimiser stops with 'optimum "
+                                          f"found' on reaching it, so it must hold for every schedule by the indicator's definition; the "
+                                          f"bounds known to follow from a definition are {dict((k, v[0]) for k, v in JUSTIFIED_BOUNDS.items())}",
+                                          f"{proj.relpath(m.path)}:{node.lineno}")
+                            continue
                     if own:
                         ctx.ok("R-BOUND-PROVENANCE", f"{where}: `{tgt[0]}.{tgt[1]}` written by its owner's constructor")
                     else:
@@ -971,7 +988,9 @@ def r_fresh_handle(ctx):
     r_opt_wiring(ctx)
 
 
-C13_RULES = [r_push_pop, r_scoped_assert, r_init_once, r_solver_readonly, r_model_typestate, r_block_clause, r_fresh_handle, r_check_fresh]
+C13_RULES = [r_push_pop, r_scoped_assert, r_init_once, r_solver_readonly, r_model_typestate, r_block_clause, r_fresh_handle, r_check_fresh,
+             # 'initialise, export, solve ... in any order': the export only reads the handle (R-SMT-SAME-HANDLE, shared with C16)
+             lambda ctx: __import__("rules.exports", fromlist=["x"]).r_smt_same_handle(ctx)]
 
 
 # ---------------------------------------------------------------------------
